@@ -147,7 +147,7 @@ StepOK(r) ==
            [] ev.a = "ConvReset"     -> \E p \in Picks : ConvReset(ev.convs[1], p)
            [] ev.a = "ConvRemove"    -> IF r.res = "ok" THEN \E p \in Picks : ConvRemove(ev.convs[1], p) ELSE UNCHANGED vars
            [] ev.a = "ConvAdd"       -> IF r.res = "ok" THEN ConvAdd(ev.convs[1]) ELSE UNCHANGED vars
-           [] ev.a = "ViewConvert"   -> ViewConvert(ev.v, ev.k, ev.convs[1])
+           [] ev.a = "ViewConvert"   -> \E p \in Picks : ViewConvert(ev.v, ev.k, ev.convs[1], p)
            [] OTHER                  -> TRUE            \* events the model does not constrain (yet)
 
 \* C11 (action property): an acknowledged call has taken effect
